@@ -259,4 +259,8 @@ def main(tier, seed):
     nst, nel, lfails, sample = level2.sweep(ns, tier, seed + 5, "all", fields=("B",), sumups=(False, True), aggs=(None,))
     level2.report(rep, "superposition: collection entries = formal sum of their leaves; sumup = sum over entries (term-exact)", nst, nel, lfails, sample,
                   "<= 4 top-level entries from {source, collection of 1-3 leaves, nested collection}, path lengths <= 3, <= 2 sensors")
+    # level-2 evaluation for all path lengths and pixel counts (checks/l2sym.py): collection entries are the sums over their leaves; sumup is the sum over entries
+    from checks import l2sym
+
+    l2sym.report_fails(rep, l2sym.run(rep, tier, fams=['C', 'D'], stride={'C': 2}))
     return rep.finish()
